@@ -79,7 +79,8 @@ func (r *bucketRegistry) unregisterBucket(bucket *Bucket) {
 	defer r.lock.Unlock()
 
 	bucketCount := r.bucketCount[name]
-	if bucketCount < 0 {
+	if bucketCount == 0 {
+		// not registered (any more): the count is unsigned, decrementing it would wrap around
 		warn("unregisterBucket couldn't find %v", bucket)
 		return
 	}
